@@ -10,7 +10,8 @@ static int peer_freed, parse_calls, parse_verdict; static const char *parse_msg;
 void free_peer_resources(struct peer *p) { (void)p; peer_freed++; }
 void cjet_free(void *p) { (void)p; }
 void *cjet_malloc(size_t n) { return malloc(n); }
-int init_peer(struct peer *p, bool local, struct eventloop *loop) { (void)p; (void)local; (void)loop; return 0; }
+static int init_peer_fails;
+int init_peer(struct peer *p, bool local, struct eventloop *loop) { (void)p; (void)local; (void)loop; return init_peer_fails ? -1 : 0; }
 int parse_message(const char *msg, size_t length, struct peer *p) { (void)p; parse_calls++; parse_msg = msg; parse_len = length; return parse_verdict; }
 
 static int closes, writes; static size_t req_num; static void *req_cb; static int reqs;
@@ -32,6 +33,17 @@ static void mk(void)
 {
 	struct buffered_reader br = { .this_ptr = &BSK, .close = s_close, .read_exactly = s_read_exactly, .writev = s_writev };
 	init_socket_peer(&SP, &br, true);
+}
+
+/* C15: a peer whose initialisation failed (its routing table could not be allocated) is not put into service */
+void harness_init_failure(void)
+{
+	init_peer_fails = nd_bool();
+	struct buffered_reader br = { .this_ptr = &BSK, .close = s_close, .read_exactly = s_read_exactly, .writev = s_writev };
+	int r = init_socket_peer(&SP, &br, true);
+	if (init_peer_fails) { CHECK(r < 0 && reqs == 0, "C15.peer_that_could_not_be_initialised_is_not_put_into_service"); REACH("init_failed"); }
+	else { CHECK(r == 0 && reqs == 1 && req_num == 4, "C09.connection_starts_reading_a_length_prefix"); REACH("init_ok"); }
+	WITNESS_END();
 }
 
 /* C09.length_prefix: the 4-byte big-endian prefix decides what is read next */
